@@ -6,6 +6,7 @@
 import Nice.Model.Gate
 import Nice.Props.C03Flow
 import Nice.Props.C03Recv
+import Nice.Model.FlowRun
 import Nice.Props.C04
 namespace Nice.Props.C03
 open Nice.Gate Nice.Gen
